@@ -840,13 +840,17 @@ class RTDCWriter:
                 else:
                     val = ufunc(dset)
                 dset.attrs[uname] = val
-            # store ufunc data for mean (weighted with size)
+            # store ufunc data for mean (weighted with the number of
+            # non-nan values)
             mean_a = dset.attrs.get("mean", None)
             if mean_a is not None:
-                num_a = offset
-                mean_b = np.nanmean(data)
-                num_b = data.size
-                mean = (mean_a * num_a + mean_b * num_b) / (num_a + num_b)
+                num_a = np.sum(~np.isnan(dset[:offset]))
+                num_b = np.sum(~np.isnan(data))
+                if num_a == 0 or num_b == 0:
+                    mean = np.nanmean(dset)
+                else:
+                    mean_b = np.nanmean(data)
+                    mean = (mean_a * num_a + mean_b * num_b) / (num_a + num_b)
             else:
                 mean = np.nanmean(dset)
             dset.attrs["mean"] = mean
